@@ -817,3 +817,4 @@ EXPLANATION += (' Round 7: ' + 'BRANCH/note-off-removes-one also locates a remov
 EXPLANATION += (' Rounds 9-10: ' + 'PITFALL/dead-parameter on apply_sustain_control_changes; PAIR/end-total located as in C11.')
 EXPLANATION += (' Round 11: ' + 'BRANCH/pedal-state-always-recorded; ORD/assumes-sorted shared from C12.')
 EXPLANATION += (' Round 12: ' + 'PAIR/total-time-never-lowered.')
+EXPLANATION += (' Round 14: ' + 'FILTER/pedal-by-controller-only; ESC/quantized-rejected located for a narrower predicate.')
